@@ -120,6 +120,9 @@ pub fn run(prop: &str, a: &Args, rep: &mut Report) {
     let mut li = 0u64;
     let mut par_long: Vec<Pre> = Vec::new();
     for (i, n) in mix.long_lens.iter().enumerate() {
+        if a.variant == "par" && *n > 8_400 {
+            continue; // the dedicated concurrent pass keeps its sequential part short
+        }
         if cfg!(miri) || (a.variant == "valgrind" && *n > 40_000) {
             break; // far too slow under Miri; under valgrind only the shorter long programs are run
         }
